@@ -45,6 +45,7 @@ EDIT_BOUNDS = {
     "C07": (640, 12000, 5, 12, 18),
     "C15": (480, 8000, 7, 10, 14),
     "C17": (480, 8000, 6, 10, 14),
+    "C04": (320, 8000, 7, 11, 16),
 }
 
 
@@ -260,3 +261,32 @@ def pars_family(run, replay):
                           "minimum and the MPR sets (ParsProps)",
                      assumptions=["gotree getters and node comments (where the reconstruction is written) are trusted",
                                   "the harness' IUPAC table is an input convention", "TLC, CommunityModules, goalign's alignment container"])
+
+
+@pipeline("C04")
+def index_family(run, replay):
+    run.build_harness()
+    if replay:
+        with open(replay) as f:
+            hdr = json.loads(f.readline())
+        if "-h" in hdr.get("case", "") and "model_case" not in hdr:
+            return edit_replay(run, replay)
+        return calc_replay(run, replay)
+    import models
+    models.index_model(run)
+    q, t, mq, mt = CALC_BOUNDS["C04"]
+    n, maxtips = (q, mq) if run.tier == "quick" else (t, mt)
+    calc_random(run, "C04", n, maxtips)
+    q, t, steps, mq, mt = EDIT_BOUNDS["C04"]
+    nhist, maxtips = (q, mq) if run.tier == "quick" else (t, mt)
+    edit_random(run, "C04", nhist, steps, maxtips)
+    return vk.finish(run,
+                     rule="model: the bucket structure of hashmap.HashMap/EdgeIndex (EdgeIndex.tla) for every initial capacity and load "
+                          "factor of the bound and every operation sequence, refinement invariant ActsLikeMap; every transition replayed on "
+                          "the real index with real branches (two presentations per split); real code: random edit histories with the "
+                          "recorded bitset/counts/depth/hash of every branch judged after every (re)indexing, all branch pairs of trees on "
+                          "the same taxa under other rootings/orders (SameBipartition, HashEquals, hash codes), long random index sequences "
+                          "through resizes, all 24 presentations of quartets",
+                     assumptions=["gotree getters incl. Bitset/NumTipsLeft/NumTipsRight/TopoDepth/HashCode are read as data",
+                                  "capacity 0 and load factor <= 0 are outside the constructor's domain",
+                                  "the stored key of an index entry is read by reflection (the field is unexported)"])
